@@ -27,6 +27,44 @@ func runC05(c *Check) {
 	c05AckedByAll(c, "C05", r)
 	c05NoLockAcrossWait(c, "C05", r)
 	c07TeardownOrder(c, "C05.O5", r)
+	c05DeliverUntilSettled(c, "C05.O3", r)
+	c11Handoff(c, "C05.O6", r)
+}
+
+// c05DeliverUntilSettled: the deliver function (whose return releases a
+// blocking Publish and lets the next delivery start) returns only on the
+// Acked() case, on a closing case, or on the subscription-closed check — in
+// particular not on a Nack.
+func c05DeliverUntilSettled(c *Check, id string, r *GCRoles) {
+	D := r.Deliver
+	var allowed []Edge
+	for _, sw := range r.settleWaits() {
+		if sw.acked != nil {
+			allowed = append(allowed, *sw.acked)
+		}
+	}
+	for _, si := range Selects(D) {
+		for _, cs := range si.Cases {
+			if ok, _ := isCancelCase(cs, r.SClosing); ok && cs.Edge != nil {
+				allowed = append(allowed, *cs.Edge)
+			}
+		}
+	}
+	closedTrue, _ := BoolEdges(D, func(v ssa.Value) bool { return AllOrigins(v, IsFieldLoad(r.SClosed)) })
+	allowed = append(allowed, closedTrue...)
+	re := ReachEntry(D, NewCut().AddEdges(allowed...))
+	for i, ret := range Returns(D) {
+		c.Report(!re[ret], id, "DELIVER-UNTIL-SETTLED", D, ret.Pos(), fmt.Sprintf("return#%d of the deliver function", i),
+			"the deliver function returns only after the Ack, or because the subscription / Pub/Sub is closing (a Nack keeps it delivering: blocking Publish and the next message wait for the Ack)")
+	}
+	// redelivery stays in this goroutine: the deliver function does not spawn itself
+	for _, f := range WithAnon(D) {
+		AllInstrs(f, func(in ssa.Instruction) {
+			if g, ok := in.(*ssa.Go); ok && CalleeFn(&g.Call) == D {
+				c.Report(false, id, "REDELIVER-IN-PLACE", f, in.Pos(), "go deliver", "redelivery is handed to a new goroutine: the completion that blocking Publish waits for no longer covers it")
+			}
+		})
+	}
 }
 
 func c05OneInFlight(c *Check, P string, r *GCRoles) {
